@@ -22,7 +22,7 @@ META = {
                   "codecs.codec / graph.static_order (routine and graph caches)", "typelib.py.inspection.* (per-predicate caches)",
                   "Delayed*._resolved", "typelib.ctx.TypeContext.__missing__ (alias memo)", "typelib.api.encode/decode/marshal/unmarshal"],
     "bounds": {
-        "quick": "all sequences of length <= 3 over an alphabet of 14 operation instances (10 fixed + 4 seed-rotated from 30): "
+        "quick": "all sequences of length <= 3 over an alphabet of 18 operation instances (14 fixed + 4 seed-rotated from 30): "
                  "marshal / unmarshal / encode / decode / strload / isoformat on pools of equal-but-distinct operands (both member orders "
                  "of one union, equal instants with different offsets, 1 / 1.0 / True, the same text as str / bytes), build-routine ops, "
                  "deep-mutate the previous result, deep-mutate the previous input, clear caches",
@@ -85,8 +85,10 @@ def deep_mutate(x):
 
 
 class Op:
-    def __init__(self, name, klass, mk_input, run):
+    def __init__(self, name, klass, mk_input, run, variant=None):
         self.name, self.klass, self.mk_input, self.run = name, klass, mk_input, run
+        # which of the equal-but-distinct representations this instance uses (member order, offset, number class)
+        self.variant = variant if variant is not None else name
 
 
 def _ops():
@@ -99,7 +101,10 @@ def _ops():
     tm_utc = datetime.time(12, 0, tzinfo=UTC)
 
     def op(name, klass, mk, run):
-        return Op(name, klass, mk, run)
+        variant = None
+        if klass == "union_order":
+            variant = "str,int" if ("Union[str,int]" in name) else "int,str"
+        return Op(name, klass, mk, run, variant)
 
     core = [
         op("strload('[1, 2]')", "text", lambda: "[1, 2]", lambda x: serdes.strload(x)),
@@ -113,6 +118,12 @@ def _ops():
            lambda x: typelib.unmarshal(M.Bag, x)),
         op("marshal(Bag)", "plain", lambda: M.Bag([1, 2], {"a": 1}, 3), lambda x: typelib.marshal(x)),
         op("decode(dict[str,list[int]],bytes)", "text", lambda: b'{"a": [1, 2]}', lambda x: typelib.decode(dict[str, list[int]], x)),
+        # the same routine on a different value of the same class (per-routine state), and two routines of one
+        # class built in either order (shared construction-time state)
+        op("unmarshal(Union[int,str],'abc')", "union_order", lambda: "abc", lambda x: typelib.unmarshal(U1, x)),
+        op("unmarshal(list[int|str],['abc','5'])", "union_order", lambda: ["abc", "5"], lambda x: typelib.unmarshal(list[int | str], x)),
+        op("marshal(Doc)", "plain", lambda: M.Doc("a", 7), lambda x: typelib.marshal(x)),
+        op("unmarshal(Doc,dict)", "plain", lambda: {"name": "a", "_rev": "7"}, lambda x: typelib.unmarshal(M.Doc, x)),
     ]
     pool = [
         op("load(b'[1, 2]')", "text", lambda: b"[1, 2]", lambda x: serdes.load(x)),
@@ -241,11 +252,11 @@ def _cause(ops, cold, seq, pos):
                         "<clear caches>": "cache_clear_after"}[sp]
                 return f"{what}:{victim}"
             culprit = ops[k]
-            if culprit.klass == target.klass and culprit.name != target.name and target.klass in ("equal_instant", "union_order", "numeric_alias"):
+            if culprit.klass == target.klass and culprit.variant != target.variant and target.klass in ("equal_instant", "union_order", "numeric_alias"):
                 return "after_equal_but_distinct:" + target.klass
             return "after:" + culprit.name
     if target.klass in ("equal_instant", "union_order", "numeric_alias") and any(
-            q < nops and ops[q].klass == target.klass and ops[q].name != target.name for q in seq[:pos]):
+            q < nops and ops[q].klass == target.klass and ops[q].variant != target.variant for q in seq[:pos]):
         return "after_equal_but_distinct:" + target.klass  # several earlier calls each suffice
     return "unexplained"
 
